@@ -73,6 +73,9 @@ pub enum Phase {
     },
     /// C08: put / remove a directory where archive `base + off` should go
     Obstacle { off: u32, put: bool },
+    /// a housekeeping job removes every empty directory below the archive root
+    /// (and the archive root itself if it is empty)
+    Sweep,
 }
 
 #[derive(Clone, Debug, Serialize, Deserialize, PartialEq)]
@@ -186,18 +189,24 @@ pub fn wait_for_bg_rotation() {
 
 fn data_attr(fault_mode: bool) -> Attr {
     if fault_mode {
-        Attr { prop: "C08", data: "C08-I3", other_prop: "C08", other: "C08-I3", sig: ":after-fault" }
+        Attr { prop: "C08", data: "C08-I3", other_prop: "C08", other: "C08-I3", sig: ":after-fault", also: None }
     } else {
-        Attr { prop: "C05", data: "C05-I3", other_prop: "C07", other: "C07-I4", sig: "" }
+        Attr { prop: "C05", data: "C05-I3", other_prop: "C07", other: "C07-I4", sig: "", also: None }
     }
 }
 
 fn attr_for(sh: &Shared) -> Attr {
     if sh.fault_mode {
         let ap = *sh.append_mode.lock().unwrap();
-        Attr { prop: "C08", data: "C08-I3", other_prop: "C08", other: "C08-I3", sig: if ap { ":after-fault:append-mode" } else { ":after-fault:truncate-mode" } }
+        Attr { prop: "C08", data: "C08-I3", other_prop: "C08", other: "C08-I3", sig: if ap { ":after-fault:append-mode" } else { ":after-fault:truncate-mode" }, also: None }
     } else {
-        data_attr(false)
+        let mut a = data_attr(false);
+        a.also = match &sh.trigger {
+            TriggerSpec::OnStartUp { .. } => Some(("C17", "C17-I3")),
+            TriggerSpec::Time { .. } => Some(("C16", "C16-I4")),
+            _ => None,
+        };
+        a
     }
 }
 
@@ -481,6 +490,9 @@ impl Roll for ProbeRoller {
                     }
                 }
                 if file.exists() {
+                    if let TriggerSpec::OnStartUp { .. } = &self.sh.trigger {
+                        self.sh.sink.fail("C17", "C17-I3", "rolled-file-remains", format!("the start-up rotation reported success but {} was not archived", self.sh.names.key(file)));
+                    }
                     self.sh.sink.fail("C07", "C07-I3", "rolled-file-remains", format!("roller returned Ok but {} still exists", self.sh.names.key(file)));
                 }
                 self.sh.sink.probe("rolls_completed", 1);
@@ -528,7 +540,7 @@ pub fn gen_roller(rng: &mut Rng, tier: Tier, allow_special: bool) -> RollerSpec 
     }
     let base = *rng.pick(&[0u32, 0, 1, 1, 3, 7]);
     let count = if tier == Tier::Thorough && rng.chance(1, 8) { rng.range(6, 8) as u32 } else { rng.weighted(&[1, 3, 4, 3, 2, 1]) as u32 };
-    let mut kinds = vec![PatKind::Name, PatKind::Name, PatKind::Dir, PatKind::Repeated, PatKind::Env, PatKind::EnvSlash];
+    let mut kinds = vec![PatKind::Name, PatKind::Name, PatKind::Dir, PatKind::Repeated, PatKind::Env, PatKind::EnvSlash, PatKind::DirInner];
     if allow_special {
         kinds.push(PatKind::SecondMount);
         kinds.push(PatKind::DirSplit);
@@ -668,6 +680,10 @@ pub fn generate(rng: &mut Rng, tier: Tier, profile: &str) -> Scn {
     let append = rng.chance(3, 4);
     let nthreads_max = if matches!(trigger, TriggerSpec::OnStartUp { .. }) { 4 } else { 3 };
     let mut phases = vec![];
+    if rng.chance(1, 6) {
+        // right after the first start-up, before the first record
+        phases.push(Phase::Sweep);
+    }
     let nwork = rng.weighted(&[5, 3, 2]) + 1;
     let mut tid_next = 0u16;
     let mut fire = vec![];
@@ -680,6 +696,9 @@ pub fn generate(rng: &mut Rng, tier: Tier, profile: &str) -> Scn {
             let ap = if rng.chance(4, 5) { append } else { !append };
             let dirty = rng.chance(1, 5);
             phases.push(Phase::Restart { append: ap, dirty, overlap: ap && append && !dirty && rng.chance(1, 3) });
+            if rng.chance(1, 4) {
+                phases.push(Phase::Sweep);
+            }
             if !ap {
                 cur = 0;
             }
@@ -1305,7 +1324,7 @@ pub fn execute(scn: &Scn, opts: &ExecOpts) -> Outcome {
                                 m.discard_active();
                             }
                             if !*sh.dirty.lock().unwrap() && !*sh.lenient.lock().unwrap() {
-                                let at = if sh.fault_mode { attr_for(&sh) } else { Attr { prop: "C05", data: "C05-I4", other_prop: "C07", other: "C07-I4", sig: "" } };
+                                let at = if sh.fault_mode { attr_for(&sh) } else { Attr { prop: "C05", data: "C05-I4", other_prop: "C07", other: "C07-I4", sig: "", also: None } };
                                 sh.model.lock().unwrap().check(&sh.names, &sh.sink, at, false, if append { "after opening in append mode" } else { "after opening in truncate mode" });
                             }
                             live.lock().unwrap().appender = Some(Arc::new(a));
@@ -1366,6 +1385,37 @@ pub fn execute(scn: &Scn, opts: &ExecOpts) -> Outcome {
                             kernel::note("obstacle.remove", &sh.names.key(&p));
                         }
                     }
+                })]
+            }
+            Phase::Sweep => {
+                let sh = sh.clone();
+                vec![Box::new(move || {
+                    fn sweep(d: &Path) -> bool {
+                        // returns true if `d` is empty afterwards
+                        let mut empty = true;
+                        if let Ok(rd) = fs::read_dir(d) {
+                            for e in rd.flatten() {
+                                let p = e.path();
+                                let is_dir = fs::symlink_metadata(&p).map(|m| m.is_dir()).unwrap_or(false);
+                                if is_dir {
+                                    if sweep(&p) {
+                                        let _ = fs::remove_dir(&p);
+                                    } else {
+                                        empty = false;
+                                    }
+                                } else {
+                                    empty = false;
+                                }
+                            }
+                        }
+                        empty
+                    }
+                    let arch = sh.names.root.join("arch");
+                    if sweep(&arch) {
+                        let _ = fs::remove_dir(&arch);
+                    }
+                    kernel::note("sweep", "");
+                    sh.sink.probe("empty_directory_sweeps", 1);
                 })]
             }
             Phase::Work { threads } => {
